@@ -96,7 +96,9 @@ WorstShapes == WideShapes \cup {<<"outlast", 0>>, <<"outfirst", 0>>, <<"runs", 1
 
 Applicable(c, n, s) ==
   CASE Purpose = "c03" ->
-         /\ s \in WorstShapes
+         /\ \/ s \in WorstShapes
+            \* size predictors add up tagged lengths of minima, dictionary entries, run values: exactly 2^24, 2^32, ...
+            \/ s \in MinAtShapes /\ n \in {2, 17} /\ c[1] \in (HeaderCodecs \cup {"dict", "dict_with", "rle", "rle_hdr"})
          /\ (s[1] = "periodic" => (c[1] = "adaptive" /\ n >= 2287))
          /\ (n > 4097 => s \in {<<"nine", 0>>, <<"outlast", 0>>, <<"periodic", 10>>})
          /\ ((s[1] = "altbits" /\ s[2] # 64) => n \in CoreLensOf(c))
